@@ -95,7 +95,21 @@ func runMcastPkt(c *Case) []string {
 		return b
 	}
 	var events []string
+	// the address handed to a callback stays that datagram's sender: every address is kept and looked at again after each
+	// later operation (a caller that replies later keeps it just like this)
+	type keptAddr struct {
+		cb   string
+		from net.Addr
+		id   int
+	}
+	var kept []*keptAddr
 	tail := func(extra string) string {
+		for _, ka := range kept {
+			if ka.id >= 0 && srcID(ka.from) != ka.id {
+				events = append(events, fmt.Sprintf("A%s:sender-reported-earlier-changed:%d->%d", ka.cb, ka.id, srcID(ka.from)))
+				ka.id = -1
+			}
+		}
 		e := strings.Join(events, " ")
 		events = nil
 		if e == "" {
@@ -133,6 +147,7 @@ func runMcastPkt(c *Case) []string {
 					shown = 0
 				}
 				events = append(events, fmt.Sprintf("R%s:%d:%d:%d:%s:latest=%d", cb, loopErrClass(err), got, srcID(from), bytesRepr(b[:shown]), where))
+				kept = append(kept, &keptAddr{cb, from, srcID(from)})
 			})
 			return tail("")
 		case "poll":
